@@ -108,6 +108,7 @@ def family(words):
         ("L-sort", "query", dict(index="logs", text="* | sort n | fields id, n, seg", start=QSTART, end=QEND, size=200, timeout_ms=20000)),
         ("M-cpu", "mquery", dict(promql="cpu", start=T0S - 10, end=T0S + 5000, step=1)),
         ("M-mem-h1", "mquery", dict(promql='mem{host="h1"}', start=T0S - 10, end=T0S + 5000, step=1)),
+        ("M-mem", "mquery", dict(promql="mem", start=T0S - 10, end=T0S + 5000, step=1)),      # every series of the segment is selected by some query
     ]
 
 
@@ -243,6 +244,43 @@ def parse_srt(b):
             R("srt", "f", "lines", tbl_end, len(b))]
 
 
+def _lohi(kind, chunk, name, lo, width):
+    return [R(kind, chunk, name + ".lo", lo, lo + 2), R(kind, chunk, name + ".hi", lo + 2, lo + width)]
+
+
+def parse_tso(b):
+    # version(1) | number of series(8, version 2) | per series: tsid(8) offset into the .tsg(4)
+    if len(b) < 9 or b[0] != 2:
+        raise vlib.Infra("tso parser: unexpected version %r" % b[:1])
+    n = struct.unpack_from("<Q", b, 1)[0]
+    if 9 + 12 * n != len(b):
+        raise vlib.Infra("tso parser: %d entries do not fill %d bytes" % (n, len(b)))
+    regs = [R("tso", "f", "version", 0, 1)] + _lohi("tso", "f", "count", 1, 8)
+    for i in range(n):
+        o = 9 + 12 * i
+        regs.append(R("tso", "rec", "tsid", o, o + 8))
+        regs += _lohi("tso", "rec", "off", o + 8, 4)
+    return regs
+
+
+def parse_tsg(b, tso):
+    # version(1) | per series: tsid(8) length(4) payload(length).  The .tso offset of a series is (start of its tsid) - 1: the reader
+    # adds 9 = "1 byte for version + 8 bytes tsid" to reach the length field
+    n = struct.unpack_from("<Q", tso, 1)[0]
+    offs = sorted(struct.unpack_from("<I", tso, 9 + 12 * i + 8)[0] for i in range(n))
+    regs, pos = [R("tsg", "f", "version", 0, 1)], 1
+    for o in offs:
+        if o + 1 != pos:
+            raise vlib.Infra("tsg parser: series at %d, expected %d" % (o + 1, pos))
+        ln = struct.unpack_from("<I", b, pos + 8)[0]
+        regs += [R("tsg", "ser", "tsid", pos, pos + 8)] + _lohi("tsg", "ser", "len", pos + 8, 4)
+        regs.append(R("tsg", "ser", "payload", pos + 12, pos + 12 + ln))
+        pos += 12 + ln
+    if pos != len(b):
+        raise vlib.Infra("tsg parser: trailing bytes")
+    return regs
+
+
 def parse_generic(kind, b):
     n = len(b)
     cuts = [(0, 1, "b0"), (1, min(16, n), "head"), (min(16, n), max(min(16, n), n - 8), "body"), (max(min(16, n), n - 8), n, "tail")]
@@ -259,6 +297,10 @@ def region_map(path, kind, line_range=None):
         return parse_pqmr(b)
     if kind == "srt":
         return parse_srt(b)
+    if kind == "tso":
+        return parse_tso(b)
+    if kind == "tsg":
+        return parse_tsg(b, open(path[:-4] + ".tso", "rb").read())
     if kind == "sfm":
         return [R("sfm", "f", "json", 0, len(b))]
     if kind in ("segmeta", "mmeta"):
@@ -391,10 +433,14 @@ def enumerate_faults(files, tier, seed):
         lo, hi = (f["line"] if shared else (0, f["size"]))
         starts = set(r["lo"] for r in f["regions"]) | set(r["hi"] - 1 for r in f["regions"])     # first and last byte of every region
         hdr = set()
+        strict = set()      # bytes of range-checkable fields (spec: RangeChecked): every byte, all three values, in both tiers
         if f["kind"] == "csg":
             for r in f["regions"]:
                 if r["region"] in ("magic", "crc", "len", "enc"):
                     hdr.update(range(r["lo"], r["hi"]))
+        for r in f["regions"]:
+            if r["region"] in ("off.hi", "len.hi"):
+                strict.update(range(r["lo"], r["hi"]))
         # truncations: new length L (the first removed byte is L)
         if not shared:
             # checksummed files are sampled densely; sort index / rollup files (never consumed by the query family) sparsely
@@ -421,6 +467,8 @@ def enumerate_faults(files, tier, seed):
                         vals = three
                     else:
                         vals = [three[0], three[2]]
+                elif o in strict:
+                    vals = three
                 elif o in hdr or o in starts:
                     vals = [rnd.choice(three)]
                 elif o % k == ph:
@@ -632,7 +680,9 @@ class Oracle:
         s, bs = ans.get("series") or {}, base.get("series") or {}
         if s == bs and not ans.get("errs"):
             return "Original", ""
-        cls, det = ("Error", str(ans.get("errs"))[:200]) if ans.get("errs") else ("Omitted", "")
+        # datapoints of the damaged segment absent: with an error list -> Error; with an EMPTY error list -> Missing (the client cannot
+        # tell the answer is incomplete)
+        cls, det = ("Error", str(ans.get("errs"))[:200]) if ans.get("errs") else ("Missing", "datapoints absent, error list empty")
         # a point (series, ts, bits) is genuine iff it was ingested; altered timestamps of the damaged segment can land anywhere,
         # so "other segment affected" is claimed only when an undamaged-segment point is missing/different in a series that
         # shows no invented point at all
@@ -650,20 +700,14 @@ class Oracle:
                 gmap = {p[0]: p[1] for p in s.get(gid, [])}
                 bmap = {p[0]: p[1] for p in pts}
                 extra = [t for t in gmap if t not in bmap]
-                # points of the undamaged segment that re-appear, unchanged, under a series the baseline does not have: the series was
-                # re-labelled with the (damaged) tags of the victim segment - the other segment's data is intact, its label set is
-                # not.  Counted as an altered answer from an un-checksummed file, not as "other segment affected".
-                moved = set()
-                for g2, pts2 in s.items():
-                    if g2 not in bs:
-                        moved |= {(p2[0], p2[1]) for p2 in pts2}
                 for p in pts:
                     if p[0] >= T0S + 900 and gmap.get(p[0]) != p[1]:
-                        if (p[0], p[1]) in moved:
-                            invented = invented or "series %s re-labelled: its datapoints are returned under a never-ingested label set" % gid
-                        elif extra:
+                        if extra:
                             invented = invented or "series %s ts=%s value bits %s, ingested %s (series also has invented points)" % (gid, p[0], gmap.get(p[0]), p[1])
                         else:
+                            # (this includes the series of BOTH segments coming back under the label set read from a damaged tags-tree
+                            # file of the victim - re-labelled or merged with another series: the other segment's datapoints are no longer
+                            # returned as what they were ingested as)
                             others_bad = others_bad or "series %s: datapoint ts=%s of the undamaged metrics segment: want %s got %s" % (gid, p[0], p[1], gmap.get(p[0]))
                 if extra:
                     invented = invented or "series %s has datapoints at never-ingested timestamps %s" % (gid, sorted(extra)[:4])
@@ -675,7 +719,7 @@ class Oracle:
 
     def judge(self, run):
         """-> (class, detail, per-query classes)"""
-        order = ["Original", "Omitted", "Error", "MatchSetChanged", "Altered", "OtherChanged"]
+        order = ["Original", "Omitted", "Error", "Missing", "MatchSetChanged", "Altered", "OtherChanged"]
         worst, wdet, per = "Original", "", []
         for (name, op, args), ans, base in zip(self.fam, run["answers"], self.base):
             if op == "mquery":
@@ -920,6 +964,8 @@ def run(chk):
             label = cls
             if cls in ("Omitted",):
                 label = "Omitted+indication" if res["indicated"] else "Omitted-silently"
+            if cls == "Missing":
+                label = "SeriesMissing-silently"
             if cls in ("crash", "hang", "initerr", "OtherChanged") and res.get("confirmed") is False:
                 label = cls + "-unconfirmed" + ("-oom-under-ceiling" if res.get("oom") else "")
                 unconfirmed += 1
@@ -950,8 +996,14 @@ def run(chk):
                      "engine start-up fails (all segments unavailable) after %s: %s" % (where, res["det"][:600]), rep)
             # model conformance (never a verdict): observed outcome class must be admitted by the as-coded model
             obs = {"Original": "Original", "Omitted": "SegmentError", "Error": "SegmentError", "MatchSetChanged": "Altered",
-                   "Altered": "Altered"}.get(cls)
-            if obs and obs not in allowed.get(case["cls"], set()):
+                   "Altered": "Altered", "Missing": "SeriesMissing"}.get(cls)
+            adm = allowed.get(case["cls"], set()) - {"-"}
+            if kind != "csg" and adm == {"SegmentError"} and obs in ("SeriesMissing", "Altered"):
+                # range-checkable damage of an un-checksummed file (the model admits nothing but the error) answered silently
+                flag("C18:%s:%s.%s:%s" % (kind, chunkc, region, "series-silently-missing" if obs == "SeriesMissing" else "altered-without-error"),
+                     "damage that a range check against the file size detects was not reported: after %s the answer %s and the error list is empty: %s" % (
+                         where, "lacks series/datapoints of the segment" if obs == "SeriesMissing" else "carries altered values", res["det"][:500]), rep)
+            elif obs and obs not in adm:
                 drift.append((ck, obs, rep))
             if len(chk.cov["samples"]) < 5 and cls not in ("Original",) and ck not in [s.get("class_key") for s in chk.cov["samples"]]:
                 chk.sample({"class_key": ck, "fault": {k: rep[k] for k in ("file", "fault", "offset", "value")}, "observed": cls,
